@@ -146,6 +146,15 @@ func TestVerifChainRules(t *testing.T) {
 				ts = 0
 			}
 			realTs := ts
+			if nearLate > 0 && nearLate%2 == 0 {
+				// half of the "just beyond the bound" blocks are placed inside the same wall-clock second as the bound
+				// itself (start early in a second, offset 300..600 ms), so that a comparison at a coarser granularity
+				// than milliseconds shows whatever the phase of the clock is
+				for time.Now().UnixMilli()%1000 > 300 {
+					time.Sleep(5 * time.Millisecond)
+				}
+				nearLate = 300 + (nearLate-300)/2
+			}
 			t0 := time.Now()
 			switch {
 			case nearLate > 0:
